@@ -778,6 +778,14 @@ impl ElementRaw {
             element: move_element.element_name(),
         })?;
 
+        // an identifiable element whose SHORT-NAME holds no text can't be given a unique name at the destination:
+        // refuse now, before it is taken out of its parent
+        if move_element.is_identifiable() && move_element.item_name().is_none() {
+            return Err(AutosarDataError::ElementNotIdentifiable {
+                xmlpath: move_element.xml_path(),
+            });
+        }
+
         // collect the paths of all identifiable elements under new_element before moving it
         let original_paths: Vec<String> = move_element
             .elements_dfs()
@@ -885,6 +893,13 @@ impl ElementRaw {
         model_src: &AutosarModel,
         _version: AutosarVersion,
     ) -> Result<Element, AutosarDataError> {
+        // an identifiable element whose SHORT-NAME holds no text can't be given a unique name at the destination:
+        // refuse now, before it is taken out of its parent
+        if move_element.is_identifiable() && move_element.item_name().is_none() {
+            return Err(AutosarDataError::ElementNotIdentifiable {
+                xmlpath: move_element.xml_path(),
+            });
+        }
         let src_path_prefix = move_element.0.read().path_unchecked()?;
         let dest_path_prefix = self.path_unchecked()?;
         let src_parent = move_element.parent()?.ok_or(AutosarDataError::InvalidSubElement {
